@@ -48,7 +48,14 @@ def run(chk, tier):
         if hs:
             row = HASH_SITES.get(b.path)
             key = "%s|hash iteration" % b.path
-            if row is None:
+            # consumers that are commutative folds of the elements (any / all / count / sum / min / max / for_each into a set):
+            # the iteration order cannot reach the result
+            consumers = [c for c in hs]
+            commut = re.compile(r"::Iterator>::(any|all|count|sum|product|max|min|len)<|::Iterator::(any|all|count|sum|product|max|min)<|^std::iter::Iterator::(any|all|count|sum|product|max|min)<")
+            producer = re.compile(r"HashMap::<K, V, S>::(values|keys|iter)<|HashSet::<T, S>::iter<|::len<")
+            if row is None and all(commut.search(c) or producer.search(c) for c in consumers) and any(commut.search(c) for c in consumers):
+                chk.ok("R11.4", key, "commutative fold (any / all / count ..) over the elements")
+            elif row is None:
                 chk.bad("R11.4", key, "%s iterates a HashMap/HashSet (%s): hash order differs between runs and clones and may reach the result" % (b.path, lib.short(hs[0])[:80]), b.file)
             elif row[0] == "sorted":
                 if any(re.search(r"slice::<impl \[T\]>::(sort|sort_unstable|sort_by|sort_by_key)$", c) for c in common.callees_of(b)):
